@@ -71,10 +71,17 @@ structure Location where
   quote : Bytes
   deriving DecidableEq, Repr, Inhabited
 
+/-- jerr.lineAndColumn: LineAndColumn extended to the end-of-file position -/
+def lineAndColumnEof (b : Bytes) (i : Nat) : Nat × Nat :=
+  if b.length == 0 || i != b.length then lineAndColumn b i
+  else
+    let lc := lineAndColumn b (b.length - 1)
+    if b.getLast? == some (newLineSymbol b) then (lc.1 + 1, 1) else (lc.1, lc.2 + 1)
+
 /-- jerr.NewLocation -/
 def newLocation (b : Bytes) (i : Nat) : Option Location :=
   match quote b i with
   | none => none
-  | some q => let lc := lineAndColumn b i; some ⟨i, lc.1, lc.2, q⟩
+  | some q => let lc := lineAndColumnEof b i; some ⟨i, lc.1, lc.2, q⟩
 
 end JsightVerif.Model
